@@ -86,15 +86,19 @@ fn non_call_fault(kind: &str) -> Expr {
 fn bury(ch: &mut Chooser, e: Expr, tail_preserving: bool, derived: bool) -> Expr {
     let mut cur = e;
     for _ in 0..ch.below(3) {
-        let pick = ch.below(if tail_preserving { 4 } else { 6 });
+        let pick = ch.below(if tail_preserving { 7 } else { 9 });
         // without derived forms only `if` and operand wrappers are used
-        let pick = if !derived && (1..=3).contains(&pick) { if tail_preserving { 0 } else { 4 + pick % 2 } } else { pick };
+        let pick = if !derived && (1..=6).contains(&pick) { if tail_preserving { 0 } else { 7 + pick % 2 } } else { pick };
         cur = match pick {
             0 => Expr::If(Box::new(Expr::Bool(true)), Box::new(cur), Some(Box::new(Expr::Int(0)))),
             1 => Expr::Let(vec![("bq".into(), Expr::Int(1))], body1(cur)),
             2 => Expr::Cond(vec![Clause::Then(Expr::Bool(false), vec![Expr::Int(1)])], Some(vec![cur])),
             3 => Expr::Begin(vec![Expr::Tick(60, Box::new(Expr::Int(0))), cur]),
-            4 => app("car", vec![app("list", vec![cur])]),
+            // the last operand of and / or and the test of a final test-only cond clause: the expansion is the operand itself
+            4 => Expr::And(vec![Expr::Bool(true), Expr::Int(1), cur]),
+            5 => Expr::Or(vec![Expr::Bool(false), cur]),
+            6 => Expr::Cond(vec![Clause::Then(Expr::Bool(false), vec![Expr::Int(1)]), Clause::Test(cur)], None),
+            7 => app("car", vec![app("list", vec![cur])]),
             _ => app("+", vec![Expr::Int(1), app("car", vec![app("list", vec![cur, Expr::Int(2)])])]),
         };
     }
